@@ -27,7 +27,11 @@ CHECK = {
            'checked, transitions = operations; non-trivial = histories of n >= 11, which cross a Table/Array capacity boundary in both directions).  '
            'phase=assign: for Range, Slice, Zip, Filter, Map assign(a, b) from a heap and from a stack source (and copy(b) for Filter / Map) must give an independent '
            'iterator: same walks / len as b, nested iteration over both gives len*len right pairs, target-source-target walks agree, after del(source) every item the '
-           'target hands out is a live object with the right value, and a target assigned from a stack object inside a helper that returned still walks correctly.'),
+           'target hands out is a live object with the right value, and a target assigned from a stack object inside a helper that returned still walks correctly.  '
+           'phase=midop: for every iterable kind, direction and position p the walk is taken to p, one call the kind must refuse is made (index len / -len-1 / far / INT64 limits, '
+           'absent key or element, wrong-typed key or value, pop_at / push_at out of range, impossible resize, missing method, mutating a stack Tuple), the exception must be in the '
+           'accept set of that failure kind, and the rest of the walk, the held item and len must be exactly those of the undisturbed walk; a successful get in mid-iteration must not '
+           'disturb containers and is only recorded for Range / Slice / Zip / Map, whose get shares the cursor with iteration.'),
   'bounds': {
     'quick': ('leaves: Array/List/stack Tuple/heap Tuple/Table/Tree x length 0..6, Tuples holding one object twice (all position pairs, length 2..5); '
               'Range: all four arities over {_, -7..7}^3 (4,096); Slice: arities slice(I) / (I,stop) / (I,start,stop) / (I,start,stop,step) + reverse(I) over '
@@ -37,6 +41,8 @@ CHECK = {
               'nesting depth 3 over the same family x 7 kinds x length 0..3; views constructed with new() at length <= 3; '
               'histories: Array/List/heap Tuple/Table/Tree (maps also with keys colliding modulo 5, 11, 55) x n in {5,6,11,12,23,24,54} x 6 removal orders x {once, refill and again} '
               '(420 histories, every state checked; ASan n <= 24); assign/copy: 43 parameter sets x {heap source, stack source, copy} x 4 scenarios (243 cases, also under ASan); '
+              'refused call in mid-iteration: 13 kinds (containers length 0..4, 12 Ranges and 9 Slices each as macro and new(), 16 Zips, 6 Filters, 5 Maps) x 2 directions x every position x every '
+              'applicable refused call (3,648 cases, also under ASan); '
               'ASan+UBSan (clang): the same grids one size step smaller (length <= 4, Slice/Range args in [-5..5], compositions length <= 3, depth 3 length <= 2)'),
     'thorough': ('as quick with length 0..8 (leaves, Slice, Map, enumerate), Slice args {_, -10..10}^3 (11,156 x 63 = 702,828), Range {_, -9..9}^3 (8,000), Zip children length 0..4 (44,136), '
                  'Filter n <= 8 (3,577); compositions depth 2 with every slice {_, -3..3}^3 as inner and as outer view (523 x 523 views) x 7 kinds x length 0..6; '
@@ -56,6 +62,10 @@ CHECK = {
     'a Tuple holding the same object twice is a separate dimension (leaves only); Terminal inside a Tuple is documented as unsupported and not explored',
     'copy() of a Range, Slice or Zip raises on the current tree and is not part of the assign/copy grid; Zips and views in that grid are built over containers '
     '(a Range shared by two views is one cursor by design); a Zip of unequal lengths is not walked backwards there (recorded finding D17)',
+    'midop: get(-len-1) / get(-1000000) on Range and Slice (they return a value on the current tree, proposed/D29) and a refused get on a Zip whose earlier input is longer '
+    '(rewrites the held value tuple before raising, proposed/D30) are executed but not judged unless the instance is given rangeneg=1 / zipget=1; a successful get(slice, k) during an '
+    'iteration over the same Slice is not executed unless sliceget=1 (it desynchronises the Slice and reads past the underlying iterable on the current tree, proposed/D31); a successful get during the '
+    'iteration of a Range, Slice, Zip or Map moves the shared cursor on the current tree (existing behaviour, recorded in successful_get_moves_iteration, not judged)',
     'gcc/clang, glibc and the sanitizer run-times are trusted; element values beyond the small Int universe are represented by it (iteration never looks at values)',
   ],
   'instances': {
@@ -74,6 +84,7 @@ CHECK = {
       + [I('heap-asan', 'asan', 'phase=heap', 'maxn=2', 'amax=2', 'rmax=2', 'zmax=2', 'fmax=2')]
       + [I('history', 'base', 'phase=history'), I('history-asan', 'asan', 'phase=history', 'hmax=24')]
       + [I('assign', 'base', 'phase=assign'), I('assign-asan', 'asan', 'phase=assign')]
+      + [I('midop', 'base', 'phase=midop'), I('midop-asan', 'asan', 'phase=midop')]
     ),
     'thorough': (
       [I('base', 'base', 'phase=base', 'maxn=8'), I('range', 'base', 'phase=range', 'rmax=9')]
@@ -90,6 +101,7 @@ CHECK = {
       + [I('heap-asan', 'asan', 'phase=heap', 'maxn=3', 'amax=3', 'rmax=3', 'zmax=2', 'fmax=3')]
       + [I('history', 'base', 'phase=history'), I('history-asan', 'asan', 'phase=history')]
       + [I('assign', 'base', 'phase=assign'), I('assign-asan', 'asan', 'phase=assign')]
+      + [I('midop', 'base', 'phase=midop'), I('midop-asan', 'asan', 'phase=midop')]
     ),
   },
 }
